@@ -225,6 +225,29 @@ func Run(c *core.Check) {
 	}
 }
 
+// Tolerance applies C08's value clause to a given (input, output) pair (used by C16).
+func Tolerance(in, out string, prec int, decimal bool) (kind, what string, ok bool) {
+	a, ok1 := numref.Parse(in)
+	b, ok2 := numref.Parse(out)
+	if !ok1 || !ok2 {
+		return "invalid-grammar", "not a number", false
+	}
+	if prec <= 0 || a.IsZero() {
+		if !a.Equal(b) {
+			return "value-changed", "", true
+		}
+		return "", "", true
+	}
+	u := new(big.Int).Sub(a.MSDExp(), big.NewInt(int64(prec-1)))
+	if decimal && u.Sign() > 0 {
+		u.SetInt64(0)
+	}
+	if !numref.WithinHalfUnit(a, b, u) {
+		return "value-off", "", true
+	}
+	return "", "", true
+}
+
 // Replay re-executes one recorded failure.
 func Replay(f core.Failure) (string, string) {
 	var fn string
